@@ -85,7 +85,7 @@ def detect(name, props):
             if m and os.path.exists(m.group(1)):
                 rp = json.load(open(m.group(1)))
                 replay = {k: (str(v)[:600]) for k, v in rp.items() if k in ('kind', 'key', 'details', 'broken_obligations', 'correspondence_mismatches', 'what')}
-            res[p] = {'exit': rc, 'violations': viol[:3], 'summary': summ[-1] if summ else '', 'replay': replay, 'wall_s': round(time.time() - t0, 1)}
+            res[p] = {'exit': rc, 'violations': viol[:3], 'summary': summ[-1] if summ else '', 'replay': replay, 'wall_s': round(time.time() - t0, 1), 'seed': os.environ.get('VERIF_SEED', '1')}
             print(p, 'exit', rc, (viol[0] if viol else 'no violation reported'))
     finally:
         sh('git checkout -- . && git clean -fdq', cwd='/repo')
